@@ -233,5 +233,16 @@ func init() {
 		for _, f := range fixed {
 			judge("fixed", f[0], f[1], nil)
 		}
+		// a return reached inside a loop inside the function (recorded finding: the loop swallows it)
+		for _, f := range [][2]string{
+			{`<% let lp = fn(xs) { %><% for (x) in xs { %>item <%= x %>,<% if (x == 2) { %><% return x * 10 %><% } %><% } %>none<% return 0 %><% } %><%= lp([1, 2, 3]) %>|<%= lp([5]) %>|<%= lp([2]) + 1 %>`, "20|0|21"},
+			{`<% let f = fn() { for (x) in [1,2,3] { if (x == 2) { return x } } return 9 } %><%= f() %>`, "2"},
+		} {
+			c := RCase{Tmpl: f[0]}
+			o := e.addRenderCase("return-in-loop", c)
+			if o.Class != "OK" || strings.TrimSpace(o.Out) != f[1] {
+				e.Violate("c16-return-inside-loop", fmt.Sprintf("%q rendered %q (%s %s), reference %q: a return reached inside a for loop does not end the function", f[0], strings.TrimSpace(o.Out), o.Class, o.Msg, f[1]), map[string]interface{}{"case": c, "observed": o})
+			}
+		}
 	})
 }
